@@ -78,6 +78,22 @@ fn main() {
             let file = args.get(2).cloned().unwrap_or_else(|| usage());
             std::process::exit(run_replay(&id, Path::new(&file)));
         }
+        "twin-demo" => {
+            use proptest::strategy::{Strategy, ValueTree};
+            install_panic_hook();
+            let seed: u64 = args.get(1).and_then(|s| s.parse().ok()).unwrap_or(1);
+            let mut runner = proptest::test_runner::TestRunner::new_with_rng(
+                Default::default(),
+                proptest::test_runner::TestRng::from_seed(proptest::test_runner::RngAlgorithm::ChaCha, &[seed as u8; 32]),
+            );
+            let spec = props::twingen::spec().new_tree(&mut runner).unwrap().current();
+            println!("{}", serde_json::to_string(&spec).unwrap());
+            for action in ["list", "test", "bench", "list-terse"] {
+                let cfg = props::twin::RunCfg { action: action.into(), ignored: if action == "bench" { 0 } else { 2 }, options: props::twin::OptSpec { sample_count: Some(2), ..Default::default() }, ..Default::default() };
+                let run = props::twin::run_in_process(&spec, &cfg).unwrap();
+                println!("==== {action} (panic: {:?}, {} invocations)\n{}", run.panic, run.invocations.len(), run.stdout);
+            }
+        }
         "shard" => {
             let id = args.get(1).cloned().unwrap_or_else(|| usage());
             run_shard(&id, &args);
